@@ -154,7 +154,7 @@ def c13_resolve(n, seed, procs):
         # dual tables of every leaf function report the multipliers of the constraints sent at the latest solve
         from PEPit import Function, Constraint
         for fct in Function.list_of_functions:
-            if not fct.get_is_leaf() or type(fct).__name__ in ("BlockSmoothConvexFunction", "LinearOperator", "Function"): continue
+            if not fct.get_is_leaf() or type(fct).__name__ in ("Function",): continue
             try:
                 duals = fct.get_class_constraints_duals()
             except Exception as ex:
